@@ -14,6 +14,9 @@ CHECKS = {
  'C03': dict(engine='E1-enum', technique='bounded-exhaustive differential execution of six entry points under one scripted draw over hint terms x objects x residues x 10 configurations',
    text='Six entry points (is_bearable, die_if_unbearable, TypeHint.is_bearable/die_if_unbearable, decorated parameter, decorated return) are executed for every enumerated (hint, object, residue, configuration) and must reach one verdict; a rejection must be exactly the configured class for its pith kind (warning classes emitted, call proceeds), name the hint (up to hint equality) and carry the object as culprits[0]; any other exception (desynchronisation included) is a violation.',
    note='Configuration axis covered pairwise (10 configurations), all of them on a representative core of hints; message text beyond naming the hint is not asserted.', ref='5/C03'),
+ 'C12': dict(engine='E1-enum', technique='bounded-exhaustive enumeration of validator expression terms x base hints x placements x objects against a boolean reference evaluator',
+   text='All validator expressions over 16 leaves (Is, IsEqual, IsInstance, IsSubclass, IsAttr nested to depth 2 incl. same-name nesting) closed under ~ & | completely to depth 1 and over representatives to depth 2 (3 thorough), under base hints {object,int,K} at 6 placements (root and five positions where the pith is an expression) on 31 objects: boolean meaning == V.is_valid == is_bearable == die_if_unbearable, and the validator blamed in the message plus every leaf verdict of its diagnosis tree agree with the model.',
+   note='Trusted: valemodel.vsat (20 lines).', ref='5/C12'),
 }
 NOT_YET = {}
 for i in range(1, 21):
